@@ -511,6 +511,17 @@ def r14c(model: Model, rr: RuleResult):
         rr.ok("too big = larger side outside uint8")
     else:
         rr.bad(r, r.node, "size guard does not test the larger side against uint8", construct="raise_if_too_big_for_cbdt predicate")
+    # nothing that ends up in an 8-bit field is clamped on the way: the value is rejected (or nudged by at most a pixel where the property allows it), never replaced by the limit
+    for fn_ in ("_width_in_pixels", "_ppem", "_cbdt_bitmap_data", "_pixels_to_funits"):
+        f_ = model.func("bitmap_tables", fn_)
+        clamp = [x for x in ast.walk(f_.node) if (isinstance(x, ast.Call) and norm(x.func) in ("min", "max") and any(norm(a) in ("255", "256", "127", "_UINT8_RANGE", "_INT8_RANGE") or "_UINT8_RANGE" in norm(a) for a in x.args))
+                 or (isinstance(x, ast.Assign) and isinstance(x.value, ast.Constant) and x.value.value in (255, 127))]
+        clamp = [x for x in clamp if not (isinstance(x, ast.Call) and any(isinstance(p_, ast.Call) and callee_tail(p_) == "warning" and any(y is x for y in ast.walk(p_)) for p_ in ast.walk(f_.node)))]
+        if clamp:
+            rr.bad(f_, clamp[0], f"{fn_} replaces a value that does not fit the 8-bit field by the field's limit (`{short(clamp[0], 60)}`): CBDT records then disagree with hmtx / the PNG, and the "
+                   f"same helper feeds sbix, which could represent the true value", construct=f"{fn_}: value clamped to the field limit")
+        else:
+            rr.ok(f"{fn_}: no clamping to a field limit")
     rng = model.mod("bitmap_tables")
     if norm(rng.const("_INT8_RANGE")) == "range(-128, 127 + 1)" and norm(rng.const("_UINT8_RANGE")) == "range(0, 255 + 1)":
         rr.ok("_INT8_RANGE = [-128, 127], _UINT8_RANGE = [0, 255]")
